@@ -337,11 +337,27 @@ def check_impl(case):
     return compare_atoms(case, info, obs['atoms'], exp, 'el')
 
 
+def py_valid(case):
+    """the domain predicate `valid` of ShelxModel/C03.lean (cross-checked against the driver's answer in evaluate)"""
+    hk = en = fr = False
+    for it in expand(case):
+        k = it[0]
+        if k == 'hklf':
+            hk = True
+        elif k == 'end':
+            en = True
+        elif k == 'atom':
+            u = [float(f5(v)) for v in it[5]] + [0.0] * 6
+            if len(it[5]) > 6 or (hk and not en and not (abs(u[1]) > 0 and abs(u[2]) < 1e-6)):
+                return False
+    return True
+
+
 def shrink(case, attr, pos, budget=120):
     """greedy one-item removal while a failure of the same attribute remains"""
     def fails(c):
         try:
-            return any(d[0] == attr for d in check_impl(c))
+            return py_valid(c) and any(d[0] == attr for d in check_impl(c))
         except Exception:
             return False
     cur = case
@@ -388,6 +404,8 @@ def evaluate(ctx, cases, stream=None):
                 raise RuntimeError(f'harness: by-construction expectation differs from the Lean specification for {case}: {ee} vs {es}')
             if ans['model'] != ans['spec'] or ans['model_views'] != ans['spec_views']:
                 raise RuntimeError(f'harness: model differs from spec inside the theorem\'s domain for {case}')
+        if ans['valid'] != py_valid(case):
+            raise RuntimeError(f'harness: py_valid differs from the Lean predicate `valid` for {case}')
         feats = features(case)
         obs = observe_impl(case)
         n_atoms = len(spec)
@@ -442,6 +460,8 @@ def evaluate(ctx, cases, stream=None):
         for key, w in want.items():
             got = obs['views'][key]
             qp = 'with-qpeaks' if want['qpeaks'] else 'no-qpeaks'
+            if key == 'n_iso' and any(o['q'] and float(o['u'][1]) == 0 for o in spec):
+                qp = 'with-zero-height-peaks'
             payload = dict(case=case, stream='views', expected=want, actual=obs['views'], model=model_views)
             if got != w:
                 ctx.fail(f'C03|view|{key}|{qp}', f'{key} = {got!r}, the atom list filtered by the rule gives {w!r}', payload)
@@ -529,6 +549,7 @@ class Builder:
         self.used = set()
         self.k = 0
         self.after = False
+        self.ended = False
 
     def name(self, el):
         return gen.atom_name(self.rng, el, self.used)
@@ -540,7 +561,10 @@ class Builder:
         xyz = [round(0.013 * k % 1 + 0.001, 6), round(0.5 - 0.0071 * k, 6), round(0.029 * k % 0.9 + 0.05, 6)]
         hidx = [i for i, e in enumerate(self.sfac) if e.upper() in ('H', 'D')]
         if self.after:
-            return ['atom', f'Q{k}', 1, xyz, 11.0, [0.05, round(3.0 - 0.07 * k, 2)], False]
+            # after END a peak may carry the height 0.00 (only the END rule marks it); between HKLF and END that
+            # would leave the domain `valid`
+            height = 0.0 if self.ended and self.rng.random() < 0.15 else round(3.0 - 0.07 * k, 2)
+            return ['atom', f'Q{k}', 1, xyz, 11.0, [0.05, height], False]
         if hydrogen is None:
             hydrogen = bool(hidx) and rng.random() < 0.3
         if hydrogen and hidx:
@@ -620,6 +644,7 @@ def make_case(rng):
             if rng.random() < 0.3:
                 body.append(['other', 'REM between'])
             body.append(['end'])
+            b.ended = True
             if rng.random() < 0.6:
                 body.append(['other', 'WGHT 0.0411 0.3112'])
                 for _ in range(rng.randint(0, 4)):
